@@ -1190,6 +1190,143 @@ fn connections_nobody_holds_on_real_tcp(ctx: &mut Ctx, seed: u64) {
     }
 }
 
+/// C09, substreams negotiated under a FALLBACK name: the responder L offers request-response protocol `/verif/rr/2` with
+/// fallback `/verif/rr/1` and has the short keep-alive timeout; the requester R only knows `/verif/rr/1`. R's request
+/// arrives on a substream negotiated under the fallback name and L's user holds it unanswered for three timeouts: that
+/// inbound substream of a keep-alive protocol is then the only thing that keeps the connection open, and it must. With
+/// `fallback = false` both use the same name (control). `tcp`: the same on two real `TcpTransport` nodes (E4).
+/// Afterwards L answers: the substream — the connection's last — is closed by L with the answer written; the answer must
+/// still reach R (the connection may go away only once what its last substream handed over has left).
+fn held_inbound_substream_keeps_the_connection(ctx: &mut Ctx, fallback: bool, tcp: bool, seed: u64) {
+    use litep2p::protocol::request_response::{ConfigBuilder as RrConfigBuilder, DialOptions, RequestResponseEvent};
+    use litep2p::types::protocol::ProtocolName;
+    const T: u64 = 4;
+    let result = std::thread::spawn(move || -> Result<usize, Viol> {
+        let rt = if tcp { crate::env::driver::runtime_io(seed) } else { crate::env::driver::runtime(seed) };
+        rt.block_on(async {
+            let (_park_tx, park_rx) = std::sync::mpsc::channel::<()>();
+            let _parked = tcp.then(|| {
+                tokio::task::spawn_blocking(move || {
+                    let _ = park_rx.recv();
+                })
+            });
+            async fn settle(w: &mut World, tcp: bool) {
+                loop {
+                    w.run_to_quiescence(1_000_000);
+                    if !tcp || !e2::settle_io(w).await {
+                        break;
+                    }
+                }
+            }
+            let mut w = World::new();
+            let name_l = if fallback { "/verif/rr/2" } else { "/verif/rr/1" };
+            let mut b = RrConfigBuilder::new(ProtocolName::from(name_l)).with_max_size(1024);
+            if fallback {
+                b = b.with_fallback_names(vec![ProtocolName::from("/verif/rr/1")]);
+            }
+            let (cfg_l, mut handle_l) = b.build();
+            let (cfg_r, mut handle_r) = RrConfigBuilder::new(ProtocolName::from("/verif/rr/1")).with_max_size(1024).with_timeout(Duration::from_secs(3600)).build();
+            let builder_l = ConfigBuilder::new().with_request_response_protocol(cfg_l).with_keep_alive_timeout(Duration::from_secs(T));
+            let builder_r = ConfigBuilder::new().with_request_response_protocol(cfg_r).with_keep_alive_timeout(Duration::from_secs(100_000));
+            let (l, r) = if tcp { (w.add_tcp_node(91, builder_l), w.add_tcp_node(92, builder_r)) } else { (w.add_node(91, builder_l), w.add_node(92, builder_r)) };
+            let l = l.map_err(|e| Viol::new("machinery/fallback-keep-alive-setup", e))?;
+            let r = r.map_err(|e| Viol::new("machinery/fallback-keep-alive-setup", e))?;
+            settle(&mut w, tcp).await;
+            let (peer_l, addr_l) = (w.nodes[l].peer, w.nodes[l].address.clone());
+            let _ = w.nodes[r].cmd.send(NodeCmd::DialAddress(addr_l));
+            settle(&mut w, tcp).await;
+            // L's user: takes the request and answers only when told to
+            let (answer_tx, mut answer_rx) = tokio::sync::mpsc::unbounded_channel::<()>();
+            let received: std::sync::Arc<parking_lot::Mutex<usize>> = Default::default();
+            let rec2 = received.clone();
+            w.spawn_for(l, "rr-responder", async move {
+                let mut held = Vec::new();
+                loop {
+                    tokio::select! {
+                        ev = handle_l.next() => match ev {
+                            None => return,
+                            Some(RequestResponseEvent::RequestReceived { request_id, .. }) => {
+                                *rec2.lock() += 1;
+                                held.push(request_id);
+                            }
+                            Some(_) => {}
+                        },
+                        go = answer_rx.recv() => {
+                            if go.is_none() {
+                                return;
+                            }
+                            for id in held.drain(..) {
+                                handle_l.send_response(id, vec![7, 7, 7]);
+                            }
+                        }
+                    }
+                }
+            });
+            let outcome: std::sync::Arc<parking_lot::Mutex<Vec<String>>> = Default::default();
+            let out2 = outcome.clone();
+            w.spawn_for(r, "rr-requester", async move {
+                let _ = handle_r.send_request(peer_l, vec![1, 2, 3], DialOptions::Reject).await;
+                while let Some(ev) = handle_r.next().await {
+                    match ev {
+                        RequestResponseEvent::ResponseReceived { response, .. } => out2.lock().push(format!("response {response:?}")),
+                        RequestResponseEvent::RequestFailed { error, .. } => out2.lock().push(format!("failed {error:?}")),
+                        _ => {}
+                    }
+                }
+            });
+            let closed_at_l = |w: &World| w.nodes[l].log.lock().iter().filter(|e| matches!(e, NodeLog::Event(s) if s.starts_with("ConnectionClosed"))).count();
+            let how = format!("{}{}", if fallback { "negotiated under the fallback name" } else { "negotiated under the main name" }, if tcp { ", real TCP nodes" } else { "" });
+            let variant = match (fallback, tcp) {
+                (true, false) => "negotiated-under-fallback-name",
+                (false, false) => "request-response",
+                (true, true) => "negotiated-under-fallback-name/tcp",
+                (false, true) => "request-response/tcp",
+            };
+            for tick in 0..3 * T {
+                settle(&mut w, tcp).await;
+                if tick == 0 && *received.lock() != 1 {
+                    return Err(Viol::new("machinery/fallback-keep-alive-setup", format!("the request ({how}) did not reach the responder's user: requester saw {:?}", outcome.lock())));
+                }
+                if closed_at_l(&w) != 0 {
+                    return Err(Viol::new(
+                        format!("c09/closed-while-substream-held/{variant}"),
+                        format!("keep-alive timeout {T} s: the connection was closed at t={tick} s while the responder still held the request's inbound substream ({how}); requester saw {:?}", outcome.lock()),
+                    ));
+                }
+                tokio::time::advance(Duration::from_secs(1)).await;
+            }
+            let _ = answer_tx.send(());
+            settle(&mut w, tcp).await;
+            let got = outcome.lock().clone();
+            if got != vec!["response [7, 7, 7]".to_string()] {
+                return Err(Viol::new(
+                    format!("c09/connection-closed-with-unsent-data-of-its-last-substream/{variant}"),
+                    format!(
+                        "the responder answered after holding the request for {} s ({how}) and closed the substream, the last thing that kept the connection open; the connection was closed before the answer had left: the requester saw {got:?}",
+                        3 * T
+                    ),
+                ));
+            }
+            Ok(w.driver.steps as usize)
+        })
+    })
+    .join();
+    let label = format!("held_inbound_substream[{}{}{}]", if fallback { "fallback name" } else { "main name" }, if tcp { ", tcp" } else { "" }, if tcp { format!(", seed {seed}") } else { String::new() });
+    match result {
+        Ok(Ok(steps)) => {
+            ctx.cov_add("transitions", steps as u64);
+            ctx.sub(&label, serde_json::json!({"driver_steps": steps, "held": true}));
+        }
+        Ok(Err(v)) if v.signature.starts_with("machinery/") => ctx.machinery_error(format!("{}: {}", v.signature, v.what)),
+        Ok(Err(v)) => ctx.violation(crate::report::Violation {
+            signature: v.signature,
+            what: v.what,
+            replay: serde_json::json!({"engine": "scripted", "scenario": "held_inbound_substream_keeps_the_connection", "fallback": fallback, "tcp": tcp, "seed": seed}),
+        }),
+        Err(_) => ctx.machinery_error("fallback-name keep-alive scenario panicked"),
+    }
+}
+
 fn backpressure_force_close_tcp(ctx: &mut Ctx) {
     use crate::env::node::MonitorCmd;
     let result = std::thread::spawn(|| -> Result<(usize, usize), Viol> {
@@ -1398,6 +1535,13 @@ pub fn run_filtered(ctx: &mut Ctx, filter: &'static str) {
         backpressure_force_close_tcp(ctx);
         for seed in 1..=if thorough { 24 } else { 6 } {
             connections_nobody_holds_on_real_tcp(ctx, seed);
+        }
+    }
+    if filter == "c09" {
+        held_inbound_substream_keeps_the_connection(ctx, false, false, 11);
+        held_inbound_substream_keeps_the_connection(ctx, true, false, 11);
+        for seed in 1..=4 {
+            held_inbound_substream_keeps_the_connection(ctx, true, true, seed);
         }
     }
     if filter == "c08" {
